@@ -7,7 +7,7 @@ Family `codecw`: the HCOBS Encoder / Decoder driving the *structural* iovec
 model (C09 lag, C10 streaming footprint, C05 for codec-owned memory).
 
 Ops: `enc_new prod|<maxInit> <maxSub>`, `dec_new …`, `feed b|c|a <payload>`,
-`drain_all`, `drain_slices k`, `drain_bytes k`, `finish`.
+`drain_all`, `drain_slices k`, `drain_bytes k`, `drain_read k`, `finish`.
 `<payload>` is hex, or `gen:<len>:<seed>:<density>` (a PRNG both sides share).
 -/
 namespace Woodpile.Driver.CodecWFam
@@ -88,6 +88,11 @@ def errName : DecErr → String
   | .cutShort => "CutShort"
   | .missingImplicitTerminator => "MissingImplicitTerminator"
 
+-- (track apileft, helper decw) BEGIN
+/-- The decoder after a call returned `Err(e)`: `EncWorld.decResume` (`InitialState`, same iovec). -/
+def afterErr (p : Params) (e : DecErr) : Codec := .dec p (decResume (.error e))
+-- (track apileft, helper decw) END
+
 def stepRest (s : St) (ws : List String) : St × List String :=
   let w := s.iv.w
   match ws with
@@ -112,7 +117,7 @@ def stepRest (s : St) (ws : List String) : St × List String :=
         | some _, .dec p st =>
           match decodeRead p w 0 st ⟨bytes, [.deliver bytes.length]⟩ bytes.length 4 with
           | some (w2, .ok (_, .ok st'), _) => fin s w2 (.dec p st') ["R ok"]
-          | some (w2, .ok (_, .error e), _) => fin s w2 .failed ["R err " ++ errName e]
+          | some (w2, .ok (_, .error e), _) => fin s w2 (afterErr p e) ["R err " ++ errName e]
           | some (_, .error _, _) => (s, ["bad-op"])
           | none => panic s
         | _, _ => (s, ["bad-op"])
@@ -157,7 +162,7 @@ def stepRest (s : St) (ws : List String) : St × List String :=
             | some w3 => fin s w3 (.dec p st') ["R ok"]
             | none => panic s
           | some (w2, .error e) => match pushA w2 with
-            | some w3 => fin s w3 .failed ["R err " ++ errName e]
+            | some w3 => fin s w3 (afterErr p e) ["R err " ++ errName e]
             | none => panic s
           | none => panic s
         | _ => (s, ["bad-op"])
@@ -178,7 +183,7 @@ def stepRest (s : St) (ws : List String) : St × List String :=
         | some (w2, .ok (n, .ok st'), o) =>
           fin s w2 (.dec p st') ["R ok " ++ toString n ++ " reqs=" ++ natList o.reqs]
         | some (w2, .ok (_, .error e), o) =>
-          fin s w2 .failed ["R err " ++ errName e ++ " reqs=" ++ natList o.reqs]
+          fin s w2 (afterErr p e) ["R err " ++ errName e ++ " reqs=" ++ natList o.reqs]
         | none => panic s
       | _ =>
         match readOwn w 0 ⟨src, sc⟩ c att with
@@ -213,6 +218,14 @@ def stepRest (s : St) (ws : List String) : St × List String :=
       | some (w', n) => fin s w' s.codec ["R " ++ toString n]
       | none => panic s
     | none => (s, ["bad-op"])
+  -- (track apileft, helper decw) BEGIN: `consumer().read(&mut buf[..k])`, `impl Read for ConsumingIovec`
+  | ["drain_read", k] =>
+    match k.toNat? with
+    | some k => match readDrain w 0 k with
+      | some (w', bytes) => fin s w' s.codec ["R " ++ toString bytes.length ++ " " ++ IovecFam.fmtBytes bytes]
+      | none => panic s
+    | none => (s, ["bad-op"])
+  -- (track apileft, helper decw) END
   | ["take_iovec"] =>
     -- `Decoder::take_iovec(self)`: the iovec with whatever was decoded so far, no validity check
     match s.codec with
@@ -234,6 +247,19 @@ def stepRest (s : St) (ws : List String) : St × List String :=
         | none => panic s
     | _ => (s, ["bad-op"])
   | _ => (s, ["bad-op"])
+
+-- (track apileft, helper decw) BEGIN
+/-- A drain op when there is no iovec to drain (the decoder was consumed by a failing `finish`): the
+harness has no consumer to call (`bad-op`); not a panic of the code under test. -/
+def stepRest2 (s : St) (ws : List String) : St × List String :=
+  let isDrain : Bool := match ws with
+    | ["drain_all"] => true
+    | ["drain_slices", _] => true
+    | ["drain_bytes", _] => true
+    | ["drain_read", _] => true
+    | _ => false
+  if isDrain && (s.iv.w.iov 0).isNone then (s, ["bad-op"]) else stepRest s ws
+-- (track apileft, helper decw) END
 
 def step (s : St) (ws : List String) : St × List String :=
   if s.iv.dead then (s, []) else
@@ -262,7 +288,7 @@ def step (s : St) (ws : List String) : St × List String :=
     fin { s with prodApi := true } w0 (.dec ⟨Woodpile.Gen.maxInit, Woodpile.Gen.maxSub, Woodpile.Gen.radix⟩ .initial)
   -- `new_from_iovec(iovec)` on an iovec that already holds `prefill` (handed over with `push`)
   | op :: prefill :: ps =>
-    if !(op = "enc_from" || op = "dec_from") then stepRest s ws else
+    if !(op = "enc_from" || op = "dec_from") then stepRest2 s ws else
     match parseHex prefill, parseParams ps with
     | some pre, some p =>
       let (w0, _) := w.addIov Iov.empty
@@ -276,7 +302,7 @@ def step (s : St) (ws : List String) : St × List String :=
           | none => panic s
         else fin { s with prodApi := ps = ["prod"] } w2 (.dec p .initial)
     | _, _ => (s, ["bad-op"])
-  | _ => stepRest s ws
+  | _ => stepRest2 s ws
 
 def family : Family := { σ := St, init := St.init, step := step }
 
